@@ -61,7 +61,7 @@ def big_extras(L, bl_member):
     """inflation amounts that put the wire blockLength near 2^16 / the type maximum (where the type allows)"""
     top = 2 ** (8 * bl_member.size) - 1
     out = []
-    for target in (65528, 65531, 65535, 65536, 65537, 70000):
+    for target in (255, 256, 257, 300, 65528, 65531, 65535, 65536, 65537, 70000):
         e = target - L.block_length
         if e > 0 and target <= top:
             out.append(e)
